@@ -97,6 +97,11 @@ func genC08(seed uint64, tier string) *Plan {
 			}
 			op := PickOne(r, []string{">", "<", ">=", "<=", "=", "<>"})
 			c := r.Range(0, 12)
+			if r.Bool(0.25) {
+				// next to values that differ from it in the seventh digit
+				c = PickOne(r, []int{1000000, 1000001, 1000002, 2000001})
+				op = PickOne(r, []string{"=", "<>", "=", ">=", "<"})
+			}
 			hq := *q
 			hq.Having = fmt.Sprintf("%s %s %d", f, op, c)
 			plus := *q
